@@ -900,6 +900,82 @@ def sched_count_cases(jobs):
     return out
 
 
+def inflight_cases(jobs):
+    """A method set that changes while a call is in flight: the running method (entered for a K4 argument)
+    registers / unregisters a method - on its own function, or on the parent of the linked variant it was
+    inherited into - and then recurses with a K3 argument.  job = {id, prop, mode: plain | variant | variant2,
+    change: register | unregister, via: recurse | name, warm: bool}.  The recursion is recorded as a call of
+    its own, to be judged against the method set after the change."""
+    import linecache
+
+    from ovld import Ovld, recurse
+
+    from .observe import classify, describe
+
+    out = []
+    for job in jobs:
+        try:
+            log = []
+            K2 = type("K2", (), {"__module__": "vfworld"})
+            K3 = type("K3", (K2,), {"__module__": "vfworld"})
+            K4 = type("K4", (), {"__module__": "vfworld"})
+            state = {"armed": False}
+            ns = {"LOG": log, "K2": K2, "K3": K3, "K4": K4, "recurse": recurse, "STATE": state, "TARGET": K3(), "__name__": "vfworld"}
+            again = "recurse(TARGET)" if job["via"] == "recurse" else "f(TARGET)"
+            src = (
+                "def f(x: K4):\n    LOG.append('fb')\n    if STATE['armed']:\n        STATE['armed'] = False\n"
+                "        STATE['change']()\n        LOG.append('>split')\n        return " + again + "\n    return 'fb'\n"
+                "def m1(x: object):\n    LOG.append('m1')\n    return 'm1'\n"
+                "def m2(x: K2):\n    LOG.append('m2')\n    return 'm2'\n"
+                "def mv(x: K3, y: object):\n    LOG.append('mv')\n    return 'mv'\n"
+            )
+            fname = f"<vf:inflight{job['id']}>"
+            linecache.cache[fname] = (len(src), None, src.splitlines(True), fname)
+            exec(compile(src, fname, "exec"), ns, ns)
+            P = Ovld()
+            P.register(ns["f"])
+            P.register(ns["m1"])
+            ns["f"] = P.dispatch      # as the decorator form leaves it: the name denotes the overloaded function
+            if job["change"] == "unregister":
+                P.register(ns["m2"])
+            target = P
+            if job["mode"] in ("variant", "variant2"):
+                V = P.copy(linkback=True)
+                V.register(ns["mv"])          # the variant's own (two-argument) method
+                target = V
+                if job["mode"] == "variant2":
+                    V2 = V.copy(linkback=True)
+                    target = V2
+            state["change"] = (lambda: P.register(ns["m2"])) if job["change"] == "register" else (lambda: P.unregister(ns["m2"]))
+            # build (and warm) the function the call goes through
+            target(K2())
+            if job["warm"]:
+                target(K3())
+            del log[:]
+            state["armed"] = True
+            obs = {"resolve": {"kind": "skip", "m": ""}}
+            try:
+                target(K4())
+                obs["kind"] = "run"
+            except BaseException as e:  # noqa
+                obs["kind"] = classify(e)
+                obs["err"] = describe(e)
+                e.__traceback__ = None
+            after = log[log.index(">split") + 1:] if ">split" in log else None
+            call = {"pos": [{"c": 3}], "kwn": [], "kwa": []}
+            ent = [{"m": mid, "call": call, "next": {"has": False, "call": {"pos": [], "kwn": [], "kwa": []}}} for mid in (after or [])]
+            obs["entered"] = ent
+            ids = ["fb", "m1"] + (["m2"] if job["change"] == "register" else [])
+            if job["mode"] != "plain":
+                ids.append("mv")
+            for k in [k for k in linecache.cache if k.startswith("<ovld:") or k.startswith("<vf:")]:
+                del linecache.cache[k]
+            out.append({"id": job["id"], "job": job, "split_seen": after is not None, "live_after": ids, "call": call, "obs": obs})
+        except Exception:
+            out.append({"id": job["id"], "skip": "harness: " + traceback.format_exc()[-700:]})
+    return out
+
+
 def build_trace_cases(jobs):
     """Executions of the lazy build recorded as event traces for Trace_Build.tla.
     job = {id, world, threads:{A: call, B: call}, granularity, switches ('sweep1' | 'sweepab' | [[..]]),
